@@ -1,8 +1,8 @@
 #!/bin/sh
-# tools/seed_verify.sh <ID> [srcdir] — confirm a seeded change (patch.diff, demo.py, meta.json in srcdir,
+# tools/seed_verify.sh <ID> [srcdir] [destname] — confirm a seeded change (patch.diff, demo.py, meta.json in srcdir,
 # default /tmp/mut-out/<ID>) in a scratch worktree: baseline still passes, demo passes on /repo and fails on the
 # changed tree; then run our check against the changed tree.  Prints a summary; copies to seeded/<ID>/ if confirmed.
-ID=$1; SRC=${2:-/tmp/mut-out/$ID}; WT=/tmp/sv-$ID-$$
+ID=$1; SRC=${2:-/tmp/mut-out/$ID}; DEST=${3:-$ID}; WT=/tmp/sv-$ID-$$
 V=$(cd "$(dirname "$0")/.." && pwd)
 [ -f "$SRC/patch.diff" ] || { echo "no patch in $SRC"; exit 2; }
 git -C /repo worktree add -q --detach "$WT" HEAD || exit 2
@@ -20,8 +20,8 @@ git -C /repo worktree remove --force "$WT"
 rm -f /tmp/sv-$ID-demo0.log /tmp/sv-$ID-demo1.log
 case "$base" in *"passed=534 failed=0"*) ok=1;; *) ok=0;; esac
 if [ $ok = 1 ] && [ $d0 = 0 ] && [ $d1 = 1 ]; then
-  mkdir -p "$V/seeded/$ID"; cp "$SRC/patch.diff" "$SRC/demo.py" "$SRC/meta.json" "$V/seeded/$ID/"
-  echo "CONFIRMED -> seeded/$ID (check rc=$crc)"
+  mkdir -p "$V/seeded/$DEST"; cp "$SRC/patch.diff" "$SRC/demo.py" "$SRC/meta.json" "$V/seeded/$DEST/"
+  echo "CONFIRMED -> seeded/$DEST (check rc=$crc)"
 else
   echo "NOT CONFIRMED"
 fi
